@@ -9,7 +9,7 @@ trap 'git -C /repo checkout -- . ' EXIT
 cd /verif
 rc=0
 for id in "$@"; do
-  python3 -m cqverif.check "$id" --tier quick | grep -E "VIOLATION|UNKNOWN|ANALYSIS BROKEN|KNOWN-FINDING|exit" ; r=${PIPESTATUS[0]}
+  python3 -m cqverif.check "$id" --tier quick | grep -E "breaks:|undecided:|VIOLATION|ANALYSIS BROKEN|KNOWN-FINDING|exit" ; r=${PIPESTATUS[0]}
   echo "== $id exit=$r"
 done
 # restore evidence of the unchanged tree
